@@ -441,6 +441,18 @@ func (w *World) inferOrigin(ps *pairState, ci *fakepg.CommitInfo, ic curRow) int
 	for k := range n.Announced {
 		var num int64
 		fmt.Sscanf(k, "%d/", &num)
+		// "the source's current head": a task without a position asks the
+		// source for its head in the very step that writes (uncached), so the
+		// first written block is a head announced during that call
+		during := false
+		for _, at := range n.AnnouncedAt[k] {
+			if at >= ps.callStart {
+				during = true
+			}
+		}
+		if !during {
+			continue
+		}
 		if num <= ic.num && ic.num-num+1 <= int64(max(ps.src.batch, 1)) {
 			cands = append(cands, num)
 		}
